@@ -1,7 +1,7 @@
 (* C17 - the c-representation ranking function is a (Pareto-)minimal model of the base. *)
 From InfOCF Require Import Core Tol CInf Form Model CModel ThmC ThmPareto ThmPostInt ThmParetoEx.
 From InfOCFProps Require Import Ex.
-From InfOCF Require Import PyLib TieCrep.
+From InfOCF Require Import PyLib TieCrep TieLazy.
 From InfOCFGen Require Import SrcCrep.
 From Coq Require Import ZArith.
 
@@ -44,6 +44,17 @@ Theorem C17_source_rank_is_sum_of_impacts : forall n w, In w (worlds n) -> foral
   py_RandomMinCRepPreOCF_c_vec2ocf n d (map Z.of_nat eta) w = Return (Z.of_nat (ckappa D eta w)).
 Proof. exact tie_c_vec2ocf. Qed.
 Print Assumptions C17_source_rank_is_sum_of_impacts.
+
+(* RandomMinCRepPreOCF.rank_world is GENERATED too (the attribute self.ranks it writes is passed in and returned): whatever part of the
+   table is filled in and whether or not recomputation is forced, the answer is kappa_eta of the world, the table keeps its worlds, stays
+   correct, holds the rank of the asked world afterwards and is unchanged elsewhere *)
+Theorem C17_source_rank_world_lazy : forall n D (d:dict BinNums.Z cond) eta (rk:wdict (option BinNums.Z)) w force, dict_values d = D -> length eta = length D ->
+  table_ok (fun w => In w (worlds n)) (fun w => Z.of_nat (ckappa D eta w)) rk -> In w (map fst rk) ->
+  exists rk', py_RandomMinCRepPreOCF_rank_world n d (map Z.of_nat eta) w force rk = Return (Z.of_nat (ckappa D eta w), rk') /\
+    map fst rk' = map fst rk /\ table_ok (fun w => In w (worlds n)) (fun w => Z.of_nat (ckappa D eta w)) rk' /\
+    wdict_find rk' w = Some (Some (Z.of_nat (ckappa D eta w))) /\ (forall w2, w2 <> w -> wdict_find rk' w2 = wdict_find rk w2).
+Proof. exact tie_crep_rank_world. Qed.
+Print Assumptions C17_source_rank_world_lazy.
 
 Example birds_minimal : pareto_check 4 birds [1;2;2;1] = true /\ pareto_check 4 birds [1;2;2;2] = false
   /\ front_missing 4 birds 3 [[1;2;2;1]] = [].
